@@ -24,7 +24,7 @@ pub fn run(tier: &str, seed: u64, widen: bool) -> Report {
     let mut rep = Report::new(
         "C20",
         "real capy CLI + executable on permuted / partitioned variants of one program; baseline also vs CapyV.Core.run",
-        "seeded CapyCore programs with >= 3 global definitions (structs, helper functions calling each other, main); per program: the generator's order, 3 random permutations of the global definitions in one file, and 2 random partitions into 2-3 files (cyclic imports, qualified references); non-trivial = a variant whose order differs from the baseline; distinct by variant text",
+        "seeded CapyCore programs with >= 3 global definitions (structs, helper functions calling each other, main); per program: the generator's order, 3 random permutations of the global definitions in one file, and 2 random partitions into 2-3 files (cyclic imports, qualified references); second stream: dependency graphs of 3-12 global definitions (typed / untyped constants, constants computed by comptime blocks calling functions and generics, aliases of aliases, structs and functions over aliases, a generic, array lengths from constants), each in the generator's order, 3 permutations and 3 partitions into 2-3 files, compared with an independent evaluation of the graph; non-trivial = a variant whose order differs from the baseline; distinct by variant text",
     );
     if !e2e::available() {
         rep.notes.push("capy CLI binary missing".into());
@@ -102,6 +102,8 @@ pub fn run(tier: &str, seed: u64, widen: bool) -> Report {
             rep.oracle_fail(label, input, json!(got), json!(base), "a reordered / re-partitioned variant behaves differently from the baseline");
         }
     }
+    // second stream: dependency graphs of global definitions (constants, comptime, aliases, generics)
+    crate::c20_globals::run(&mut rep, &mut rng, tier, widen);
     rep
 }
 
